@@ -166,6 +166,17 @@ NextSlack == \E f \in SlackF, b1 \in Bx, b2 \in Bx, conv \in BOOLEAN :
     LET inst == Inst("min", << V(1, "integer", b1), V(2, "integer", b2) >>, K(Zero), << C(7, "le", f) >>, <<>>, <<>>) IN
     IF conv THEN \E mx \in {2, 1000} : vec' = Ev("slack_convert", [inst |-> inst, cid |-> 7, max |-> mx, ub |-> 0, points |-> PtsOfBox(b1, b2)])
     ELSE \E ub \in {1, 3} : vec' = Ev("slack_add", [inst |-> inst, cid |-> 7, max |-> 0, ub |-> ub, points |-> PtsOfBox(b1, b2)])
+\* decisions exactly on their thresholds with coefficients that are not binary fractions: the constant makes the exact
+\* minimum (or maximum) of f over the box equal to 0, so "never holds" / "always holds" are decided at 0 itself while the
+\* floating-point interval end is a rounding error away from it
+Thirds == { <<1,3>>, <<-2,3>>, <<5,3>>, <<-7,6>>, <<11,6>>, R(-1), <<2,3>>, <<-5,3>> }
+ExtremeLin(a, b, b1, b2, atMin) == RAdd(RMul(a, IF (RSign(a) > 0) = atMin THEN b1[1].lo ELSE b1[1].hi),
+                                        RMul(b, IF (RSign(b) > 0) = atMin THEN b2[1].lo ELSE b2[1].hi))
+NextSlackBoundary == \E a \in Thirds, b \in Thirds, b1 \in Bx, b2 \in Bx, atMin \in BOOLEAN, conv \in BOOLEAN :
+    LET f == L(<< T(1, a), T(2, b) >>, RNeg(ExtremeLin(a, b, b1, b2, atMin)))
+        inst == Inst("min", << V(1, "integer", b1), V(2, "integer", b2) >>, K(Zero), << C(7, "le", f) >>, <<>>, <<>>) IN
+    IF conv THEN vec' = Ev("slack_convert", [inst |-> inst, cid |-> 7, max |-> 1000, ub |-> 0, points |-> PtsOfBox(b1, b2)])
+    ELSE vec' = Ev("slack_add", [inst |-> inst, cid |-> 7, max |-> 0, ub |-> 3, points |-> PtsOfBox(b1, b2)])
 NextSlackRejects == \E why \in {"unknown", "equality", "continuous", "nofn", "removed"}, conv \in BOOLEAN :
     LET base == Inst("min", << V(1, "integer", B(R(0), R(2))), V(2, IF why = "continuous" THEN "continuous" ELSE "integer", B(R(0), R(2))) >>, K(Zero),
                      << [C(7, IF why = "equality" THEN "eq" ELSE "le", L(<< T(1, R(1)), T(2, R(1)) >>, R(-1))) EXCEPT !.f = IF why = "nofn" THEN <<>> ELSE @] >>,
@@ -215,7 +226,7 @@ DoHistories == Step(NextHistories)
 DoSamples == Step(NextSamples \/ NextTolExact \/ NextSamplesHelpers)
 DoBest == Step(NextBest \/ NextAsMin)
 DoQubo == Step(NextQubo)
-DoSlack == Step(NextSlack \/ NextSlackRejects)
+DoSlack == Step(NextSlack \/ NextSlackBoundary \/ NextSlackRejects)
 DoMpsRoundtrip == Step(NextMpsRoundtrip)
 DoPenalty == Step(NextPenalty \/ NextWithParameters)
 Emit == phase = 1 => PrintT("VEC " \o ToJson(vec))
